@@ -5,6 +5,9 @@ V = os.path.dirname(os.path.dirname(os.path.abspath(__file__)))
 props = [json.loads(l) for l in open(os.path.join(V, "properties.jsonl"))]
 
 CHECKS = {
+ "C01": dict(category="exploration", technique="bounded-exhaustive enumeration of expression forms x operand-type tuples x threshold value grids, twin-compiled (chibicc vs gcc -O0) and compared with a 128-bit C11 reference model",
+   text="Every operator (18 binary, 4 unary, casts, ?:, comma, 10 compound assignments, ++/--), every pair of the nine integer types, every conversion context (initializer, assignment, argument, return, eight kinds of condition), two-level compositions and pointer arithmetic for seven element sizes are enumerated completely; each case is executed on a value grid holding every width threshold of its operand types (all 256 values for 8-bit types) and its static type is read back through _Generic/sizeof. A tuple is judged only when the C11 model and gcc agree and the model says the result is defined.",
+   note="Trusts gcc 12 -O0 and the 128-bit model where they agree; implementation-defined conversions are fixed as the x86-64 platform documents them; values between grid points of >=16-bit types and nesting deeper than two operators are not explored."),
  "C17": dict(category="model_checking", technique="explicit-state BFS over the real hashmap.c (all reachable table states for colliding key sets) + exhaustive define/undef histories replayed through the shipped binary",
    text="Every reachable state of the tree's own hash table for bounded colliding key universes (2-4 keys sharing a home slot, neighbours, 9-10 fillers forcing rehash with tombstones present) is visited by breadth-first search with the real put/get/delete as transition relation; in each state every key must read back the reference dictionary. All macro define/redefine/undef histories up to length 5 (thorough 6) over names that collide in the real macro table are replayed through cc1 -E with -D/-U and #define/#undef mixes.",
    note="Trusts gcc to compile the white-box harness; key universe and history length are bounded; scope/tag tables are exercised only through the shared hashmap.c implementation."),
